@@ -9,6 +9,10 @@ CHECKS = {
                 technique="TLA+ FS spec (FsCore/FsHandles): TLC bounded-exhaustive edge generation replayed on MemFS/OrefaFS + TLC trace validation (FsTrace with deviation catalogue FsDev); spec itself validated against Go os on tmpfs",
                 text="Every transition of the bounded universe (all call templates x all states reachable in <=3 (quick) / <=4 (thorough) calls over names {a,b}, depth 2, incl. root/ancestor/identical operands) is computed by TLC from the explicit TLA+ specification and replayed on the real MemFS and OrefaFS; result, full tree and internal checker verdict must equal the specification's successor, otherwise the recorded step goes to TLC trace validation where only an open, exact deviation operator can explain it. Long random histories (3 names, depth 3, unclean spellings) are trace-validated on all targets. The specification is re-validated against the kernel (osfs in a chroot on tmpfs) on the same edges and plans in the same run.",
                 note="Trusted: TLC, the projection (public API + verif-tagged checker), Go os on tmpfs as the Linux reference. Exhaustive only inside the stated universe; set-gid directories, removal of the working directory and calls naming OrefaFS' root are outside the generated universe (DESIGN.md)."),
+    "C02": dict(cat="model_checking", design="DESIGN.md section 8 C02",
+                technique="TLA+ handle spec (FsHandles.tla: os.File semantics on handle records over the shared inode table): TLC bounded-exhaustive transitions replayed on MemFS/OrefaFS and on real *os.File (kernel), TLC trace validation with candidate-set tracking (hidden handle state) and deviation catalogue",
+                text="FsHandles.tla specifies Read/ReadAt/Write/WriteAt/WriteString/Seek/Truncate/Stat/Sync/Chmod/Chown/Chdir/Close/ReadDir/Readdirnames on handle records (offset, access mode, append, directory snapshot) over the same inode table as the namespace calls, so unlinked-but-open inodes, hard links and several handles share one content. TLC enumerates every transition from every state reachable in <=3 (quick) / <=4 (thorough) calls from a 3-byte file: 36 open-flag combinations on two names and the directory, up to 2 simultaneous handles, lengths {0,1,3}, offsets {-1,0,size-1,size,size+2}, all whence values, path-level Truncate/Rename/Link/Remove/WriteFile interleaved; each is replayed on MemFS, OrefaFS and on os.File on tmpfs, comparing byte counts, bytes, offsets, error kinds, the content through every link and Stat through every handle after every step. Random 120-200 step histories with handle operations are trace-validated on all three. Trace validation carries the SET of specification states compatible with the observations, because a deviating open (access mode, append) is only observable later.",
+                note="Trusted as C01. Directory offsets other than the rewind Seek(0,0) are not generated (opaque cookies on Linux); SEEK_DATA/SEEK_HOLE are not modelled."),
     "C05": dict(cat="model_checking", design="DESIGN.md section 8 C05",
                 technique="TLC invariants/action properties (TreeWellFormed, FailedCallChangesNothing, SuccessIsLocal) on the FS spec graph + conformance of every real-code step (projection equality, verif-tagged node-graph checker) by edge replay and TLC trace validation",
                 text="TLC checks the tree invariants and the two action properties on the reachable graph of the specification; they transfer to the code because every replayed edge and every validated trace step demands projection equality with a specification state satisfying them plus an 'ok' verdict of the internal node-graph checker (reference counts vs stored link counters, single parent, OrefaFS index == reachable). A step counts against C05 only if it breaks a C05 clause by itself (ghost/hidden entry, unsorted listing, Nlink != number of SameFile paths, diverging hard links, failed call that changed the tree, checker verdict).",
